@@ -14,7 +14,7 @@ from __future__ import annotations
 
 import ast
 
-from flow import BaseClient, function_exits
+from flow import BaseClient, Flow, function_exits
 
 from common import Finding, norm
 import rules_t1
@@ -34,6 +34,7 @@ class _AttachClient(BaseClient):
     def __init__(self, copy_vars):
         self.copy_vars, self.bad = copy_vars, []
         self.not_parent = set()
+        self.key_of = {}
 
     def call_may_raise(self, call):
         return False
@@ -59,7 +60,39 @@ class _AttachClient(BaseClient):
             return frozenset(S | {("NOTPARENT", test.func.value.id)})
         return S
 
+    def enter_loop(self, s):
+        # `for name, value in D.items()` / `for name in D`: the key variable is drawn from dictionary D
+        it, tg = getattr(s, "iter", None), getattr(s, "target", None)
+        if isinstance(it, ast.Call) and isinstance(it.func, ast.Attribute) and it.func.attr in ("items", "keys") and isinstance(it.func.value, ast.Name) and not it.args:
+            k = tg.elts[0] if it.func.attr == "items" and isinstance(tg, ast.Tuple) and tg.elts else tg
+            if isinstance(k, ast.Name):
+                self.key_of[k.id] = it.func.value.id
+        elif isinstance(it, ast.Name) and isinstance(tg, ast.Name):
+            self.key_of[tg.id] = it.id
+
+    def _not_parent(self, name, S):
+        """the key cannot be "parent": established by a test on this path, or drawn from a dictionary that only ever received such keys"""
+        if ("NOTPARENT", name) in S:
+            return True
+        d = self.key_of.get(name)
+        return d is not None and ("CLEANDICT", d) in S and ("DIRTYDICT", d) not in S
+
     def transfer(self, s, S):
+        # dictionaries filled with keys that passed the `!= "parent"` test (two-pass form: sort the keywords first, apply them later)
+        if isinstance(s, ast.Assign):
+            for t in s.targets:
+                if isinstance(t, ast.Subscript) and isinstance(t.value, ast.Name) and isinstance(t.slice, ast.Name):
+                    S = frozenset(S | {("CLEANDICT" if self._not_parent(t.slice.id, S) else "DIRTYDICT", t.value.id)})
+                for t1, v1 in (zip(t.elts, s.value.elts) if isinstance(t, ast.Tuple) and isinstance(s.value, ast.Tuple) and len(t.elts) == len(s.value.elts) else [(t, s.value)]):
+                    if isinstance(t1, ast.Name) and isinstance(v1, ast.Dict) and not v1.keys:
+                        S = frozenset(S | {("CLEANDICT", t1.id)})
+                    if isinstance(t1, ast.Name) and isinstance(v1, ast.DictComp) and isinstance(v1.key, ast.Name) and len(v1.generators) == 1:
+                        S1 = frozenset()
+                        for c_ in v1.generators[0].ifs:
+                            for part in (c_.values if isinstance(c_, ast.BoolOp) and isinstance(c_.op, ast.And) else [c_]):
+                                neg = isinstance(part, ast.UnaryOp) and isinstance(part.op, ast.Not)
+                                S1 = self.assume(part.operand if neg else part, not neg, S1)
+                        S = frozenset(S | {("CLEANDICT" if ("NOTPARENT", v1.key.id) in S1 else "DIRTYDICT", t1.id)})
         fallible = [c for c in ast.walk(s) if isinstance(c, ast.Call) and (getattr(c.func, "id", "") == "setattr" or getattr(c.func, "attr", "") in ("update", "_process_style_kwargs"))]
         fallible += [t for t in (s.targets if isinstance(s, ast.Assign) else []) if isinstance(t, ast.Attribute) and isinstance(t.value, ast.Name)
                      and t.value.id in self.copy_vars and not t.attr.startswith("_")]
@@ -73,7 +106,7 @@ class _AttachClient(BaseClient):
                 k = c.args[1]
                 if isinstance(k, ast.Constant):
                     attach = attach or k.value == "parent"
-                elif not (isinstance(k, ast.Name) and ("NOTPARENT", k.id) in S):
+                elif not (isinstance(k, ast.Name) and self._not_parent(k.id, S)):
                     attach = True
         if attach:
             S = frozenset(S | {("ATTACHED",)})
@@ -262,39 +295,55 @@ def run(repo, res, tier):
     return {}
 
 
-def _detached_at(fn, call):
-    """is `call` inside a region where self._parent is None: between `self._parent = None` and the next store to
-    self._parent in the same block, or under a test that self.parent/_parent is None"""
-    def find(stmts, detached):
-        for s in stmts:
-            if any(x is call for x in ast.walk(s)):
-                if isinstance(s, ast.If):
-                    t_, neg = s.test, False
-                    while isinstance(t_, ast.UnaryOp) and isinstance(t_.op, ast.Not):
-                        t_, neg = t_.operand, not neg
-                    t = norm(t_)
-                    in_body = any(x is call for b in s.body for x in ast.walk(b))
-                    is_none = ("parent is None" in t or "_parent is None" in t)
-                    not_none = ("parent is not None" in t or "_parent is not None" in t)
-                    if neg:
-                        is_none, not_none = not_none, is_none
-                    if in_body:
-                        return find(s.body, detached or is_none)
-                    return find(s.orelse, detached or not_none)
-                if isinstance(s, ast.Try):
-                    for blk in (s.body, s.orelse, s.finalbody):
-                        if any(x is call for b in blk for x in ast.walk(b)):
-                            return find(blk, detached)
-                    for h in s.handlers:
-                        if any(x is call for b in h.body for x in ast.walk(b)):
-                            return find(h.body, False)
-                if isinstance(s, (ast.With, ast.For, ast.While)):
-                    return find(s.body, detached)
-                return detached
-            if isinstance(s, ast.Assign) and any(isinstance(t, ast.Attribute) and t.attr == "_parent" and isinstance(t.value, ast.Name) and t.value.id == "self" for t in s.targets):
-                detached = isinstance(s.value, ast.Constant) and s.value.value is None
+class _DetachClient(BaseClient):
+    """may-fact ATT = `self` may still have a parent.  Cleared by `self._parent = None` and on the branch of a test that found the parent
+    (read directly, or through a local bound to `self.parent` / `self._parent`) to be None; set again by any other store to `self._parent`."""
+    def __init__(self, fn, call):
+        self.call, self.seen = call, []
+        binds = {}
+        for a in ast.walk(fn):
+            if isinstance(a, ast.Assign) and len(a.targets) == 1 and isinstance(a.targets[0], ast.Name):
+                binds.setdefault(a.targets[0].id, []).append(a.value)
+        self.alias = {n for n, vs in binds.items() if any(self._is_parent(v) for v in vs)
+                      and all(self._is_parent(v) or (isinstance(v, ast.Constant) and v.value is None) for v in vs)}
+
+    @staticmethod
+    def _is_parent(e):
+        return isinstance(e, ast.Attribute) and e.attr in ("parent", "_parent") and isinstance(e.value, ast.Name) and e.value.id == "self"
+
+    def call_may_raise(self, call):
         return False
-    return find(fn.body, False)
+
+    def assume(self, test, branch, S):
+        if isinstance(test, ast.Compare) and len(test.ops) == 1 and isinstance(test.ops[0], (ast.Is, ast.IsNot)) \
+                and isinstance(test.comparators[0], ast.Constant) and test.comparators[0].value is None \
+                and (self._is_parent(test.left) or (isinstance(test.left, ast.Name) and test.left.id in self.alias)):
+            if isinstance(test.ops[0], ast.Is) == branch:
+                return frozenset(S - {("ATT",)})
+        return S
+
+    def observe(self, expr, S, stmt):
+        if any(x is self.call for x in ast.walk(expr)):
+            self.seen.append(("ATT",) in S)
+
+    def transfer(self, s, S):
+        if any(x is self.call for x in ast.walk(s)):
+            self.seen.append(("ATT",) in S)
+        if isinstance(s, ast.Assign):
+            for t in s.targets:
+                if isinstance(t, ast.Attribute) and t.attr == "_parent" and isinstance(t.value, ast.Name) and t.value.id == "self":
+                    if isinstance(s.value, ast.Constant) and s.value.value is None:
+                        S = frozenset(S - {("ATT",)})
+                    else:
+                        S = frozenset(S | {("ATT",)})
+        return S
+
+
+def _detached_at(fn, call):
+    """is `call` reached only where self._parent is None (cleared by a store, or found to be None by a test) - on every path"""
+    c = _DetachClient(fn, call)
+    Flow(c).block(fn.body, frozenset({("ATT",)}))
+    return bool(c.seen) and not any(c.seen)
 
 
 MANIFEST = {
